@@ -3,7 +3,7 @@
    Subject: `encode` / `bparse` of Codec/Model.v (the schema-interpreting model of the generated Encode / Parse over a
    BufferReader) on the schemas of Codec/GenSchemas.v, which are re-translated from the source on every run.
    The last sentence of the property (generated code = generator output) is a finite direct decision made by the check. *)
-From Codec Require Import Schema Readers Model Spec GenSchemas SchemasWf LeafLemmas Roundtrip Theorems13 LengthExact DecodeThms Sim SimWr WireThms WirePlan.
+From Codec Require Import Schema Readers Model Spec GenSchemas SchemasWf LeafLemmas Roundtrip Theorems13 LengthExact DecodeThms Sim SimWr WireThms WirePlan GenTemplates Tmpl.
 Open Scope N_scope.
 
 (* the schemas the generator front end parses from the current definitions are well formed (79 models at pin time) *)
@@ -132,6 +132,44 @@ Theorem wire_plan_exact : forall fuel sc inc mi vs,
   wire_plan fuel sc inc mi vs = map seg_plan (encode_wire fuel sc inc mi vs).
 Proof. exact WirePlan.wire_plan_exact. Qed.
 Print Assumptions wire_plan_exact.
+
+(* ---- generator identity, beyond the byte comparison of the regenerated files: the templates themselves ----
+   GenTemplates.v is the control skeleton of the generator's ModelParse template (and the `progress` statements of the
+   sequence / map field readers), translated expression by expression on every run.  The critical-type test of the
+   template's `default:` branch is the NDN rule ... *)
+Theorem template_critical_rule : forall t : N,
+  t_reject false (Z.of_N t) = ((t <=? 31) || N.odd t).
+Proof. exact Tmpl.template_critical_rule. Qed.
+Print Assumptions template_critical_rule.
+
+(* ... and the template's loops, run literally with the translated conditions, case tests, `handled` / `progress`
+   statements, skip-case numbers and error guards (Tmpl.ploop_t: `for { end test; T; L; for handled := ...; cond; post
+   { switch typ {...}; not-handled block; error return } }; final pass`), are the parser all theorems above are about:
+   at every nesting level, for both readers, from `progress := t_init`. *)
+Theorem template_parse_buffer : forall d sc mi ic r,
+  bparse (S d) sc mi ic r =
+  match nth_error sc mi with
+  | None => Err E_NOMODEL
+  | Some m => ploop_t br (fun r => Ok (br_pos r)) br_len br_readbyte br_readn br_readbuf br_readwire br_skip br_range br_delegate
+                      (bparse d sc) (S (Z.to_nat (br_len r - br_pos r))) m ic (init_pst m) t_init r
+  end.
+Proof. exact Tmpl.template_parse_buffer. Qed.
+Print Assumptions template_parse_buffer.
+
+Theorem template_parse_wire : forall d sc mi ic r,
+  wparse (S d) sc mi ic r =
+  match nth_error sc mi with
+  | None => Err E_NOMODEL
+  | Some m =>
+    match pr_pos r with
+    | Ok p0 => ploop_t preader pr_pos pr_len pr_readbyte pr_readn pr_readbuf pr_readwire pr_skip pr_range pr_delegate
+                       (wparse d sc) (S (Z.to_nat (pr_len r - p0))) m ic (init_pst m) t_init r
+    | Err e => Err e
+    | Panic w => Panic w
+    end
+  end.
+Proof. exact Tmpl.template_parse_wire. Qed.
+Print Assumptions template_parse_wire.
 
 (* the elements are the encoding *)
 Theorem elements_are_encoding : forall f sc mi vs, wf_value (S f) sc mi vs = true ->
